@@ -28,6 +28,7 @@ func checkC17(c *Check, a *Anchors) {
 	noDynamicFormat(c, a, "no-dynamic-format")
 	c17StdioIdentity(c, a)
 	c17WriteReportsFullCount(c, a)
+	c17PrefixFallbackAfterRender(c, a)
 }
 
 // writesTo: the ssa call writes to the value loaded from field `field` of type typ (as receiver of Write or as first argument of a writer helper).
@@ -680,4 +681,38 @@ func c17WriteReportsFullCount(c *Check, a *Anchors) {
 			fnDisplay(fb)+" re-assigns its parameter and then reports len of it: the count is short although every byte was consumed, io.Copy stops with ErrShortWrite and the remaining output of the command is lost")
 	}
 	c.Floor("write-reports-full-count", n, 2)
+}
+
+// c17PrefixFallbackAfterRender: "every line carries its task's prefix" — an empty prefix is replaced by the task's name.
+func c17PrefixFallbackAfterRender(c *Check, a *Anchors) {
+	c.Rule("prefix-fallback-after-render", "the task compiler replaces an empty prefix by the task's name AFTER the prefix was rendered (`if new.Prefix == \"\" { new.Prefix = new.Task }` on the compiled task): a default applied to the unrendered text does not cover a `prefix:` template that renders empty, whose lines then come out as `[] …`")
+	fb := a.CompiledTask
+	c.Fn(fb)
+	info := fb.Info()
+	found := false
+	inspectBody(fb.Body, func(nd ast.Node) bool {
+		ifs, ok := nd.(*ast.IfStmt)
+		if !ok {
+			return true
+		}
+		be, ok := ast.Unparen(ifs.Cond).(*ast.BinaryExpr)
+		if !ok || be.Op != token.EQL || !constIs(info, be.Y, `""`) || !fieldSel(info, be.X, PkgAst, "Task", "Prefix") {
+			return true
+		}
+		root := rootVar(info, be.X)
+		if root == nil || isParamOf(info, fb, root) {
+			return true
+		}
+		// the tested task is the one being built (a local assigned the big literal), and the branch assigns its Prefix
+		for _, st := range ifs.Body.List {
+			if as, ok := st.(*ast.AssignStmt); ok && len(as.Lhs) == 1 && fieldSel(info, as.Lhs[0], PkgAst, "Task", "Prefix") && rootVar(info, as.Lhs[0]) == root {
+				if fieldSel(info, as.Rhs[0], PkgAst, "Task", "Task") {
+					found = true
+				}
+			}
+		}
+		return true
+	})
+	c.Decide(found, "prefix-fallback-after-render", "fallback@"+fnDisplay(fb), fb.Decl.Pos(), "an empty rendered prefix becomes the task name",
+		"the task compiler no longer replaces an empty RENDERED prefix by the task's name: a task whose `prefix:` template renders empty (a variable that one caller does not set) writes lines with an empty prefix in the prefixed output style")
 }
